@@ -344,7 +344,7 @@ class Interp(Ops, B.BuiltinsMixin):
                     else:
                         f.default = v
                         f.has_default = True
-                elif kw.arg == "factory":
+                elif kw.arg in ("factory", "default_factory"):
                     f.factory = v
                 elif kw.arg == "converter":
                     f.converter = v
@@ -595,7 +595,7 @@ class Interp(Ops, B.BuiltinsMixin):
             return k[1]
         m = {"int": "int", "bool": "bool", "real": "float", "str": "str", "bytes": "bytes", "none": "NoneType",
              "ListV": "list", "DictV": "dict", "SetV": "set", "tuple": "tuple", "SymSeq": "list",
-             "SymMap": "dict", "ClassV": "type", "FuncV": "function", "NdArr": "ndarray", "GenV": "generator", "slice": "slice"}
+             "SymMap": "dict", "ClassV": "type", "FuncV": "function", "NdArr": "ndarray", "GenV": "generator", "slice": "slice", "SStr": "str"}
         if k in m and m[k] in self.builtins:
             if isinstance(v, SymSeq) and v.kind != "list":
                 return self.builtins[v.kind]
